@@ -17,7 +17,11 @@ for d in sorted(glob.glob("/verif/seeded/*/")):
     # as they stood would have missed the change (the stages of a check run in a fixed order and report the first violation)
     NEW = ("x_big_", "x_top_price", "x_long_queue", "x_ties_modify_reload", "py_view_", "py_numpy_", "gen_env_modify_partial", "gen_menv_modify_partial",
            "rand_env_modify", "sim_outcomes", "gen_create_max_tick3", "gen_reload_tick2_top", "gen_toggle_top_price", "agents_momentum_saturated",
-           "py_repo_scenarios", "py_rand_env_engine", "py_rand_numpy_engine", "gen_env_clock", "gen_menv_clock")
+           "py_repo_scenarios", "py_rand_env_engine", "py_rand_numpy_engine", "gen_env_clock", "gen_menv_clock",
+           # session 5
+           "x_edge_", "x_env_edge", "x_menv_edge", "x_offgrid_resting", "gen_env_ledger", "gen_menv_ledger", "rand_env_ledger", "x_env_overflow",
+           "x_rand_env_overflow", "rand_reload_ties", "agent_helpers", "py_env_layout_low", "py_numpy_layout_low", "py_env_layout_requeue",
+           "py_env_offgrid_modify", "py_book_offgrid_modify")
     NEWTXT = ("env_every_size", "sim_runner_", "market_sim_runner_", '"kind": "code"', "StepEnv(seed=", "settime")
     f0 = ""
     for c in det:
